@@ -29,6 +29,8 @@ package segment
 //@   ensures imp(len(bs) < 8, forall(s, uint32, has(t.ReadBuffer, s) == old(has(t.ReadBuffer, s)) && t.ReadBuffer[s] == old(t.ReadBuffer[s])))
 //@   ensures imp(len(bs) >= 8, forall(s, uint32, imp(s != be32(bs, 0), has(t.ReadBuffer, s) == old(has(t.ReadBuffer, s)) && t.ReadBuffer[s] == old(t.ReadBuffer[s]))))
 //@   ensures imp(len(bs) >= 8, has(t.ReadBuffer, be32(bs, 0)) == !result1)
+//@   ensures imp(len(bs) >= 8 && !old(has(t.ReadBuffer, be32(bs, 0))) && !result1, len(t.ReadBuffer[be32(bs, 0)].Msgs) == be16(bs, 4) + 1)   // one slot per announced segment, up to 65536
+//@   ensures imp(len(bs) >= 8 && old(has(t.ReadBuffer, be32(bs, 0))) && !result1, t.ReadBuffer[be32(bs, 0)] == old(t.ReadBuffer[be32(bs, 0)]) && len(t.ReadBuffer[be32(bs, 0)].Msgs) == old(len(t.ReadBuffer[be32(bs, 0)].Msgs)))
 
 //@ func (*ReadBuffer).build
 //@   props C14
